@@ -31,8 +31,20 @@ package resourceexecutor
 //     an unlimited cfs quota, "9223372036854775807" (cgreconcile) or "max" for unlimited memory.*;
 //   * LeveledUpdateBatch gets [][]ResourceUpdater with level i = all updaters of the cgroups at
 //     depth i (parents first), all resource types mixed within a level, any order within a level -
-//     this is how cgreconcile (qos, pod, container) and the runtimehooks rules (pod, container)
-//     call it; levels/files may be missing from the batch (e.g. cfs quota only for pods+containers);
+//     this is how the runtimehooks rules (pod, container) call it; levels/files may be missing from
+//     the batch (e.g. cfs quota only for pods+containers, an empty level), updaters of cgroups that
+//     vanished meanwhile may be present;
+//   * "qos shape" cases build the batch exactly like cgreconcile: level 0 = kubepods (the Guaranteed
+//     QoS dir) FOLLOWED BY its child QoS dirs (burstable, besteffort) in that order, level 1 = every
+//     pod (guaranteed pods hang directly under kubepods), level 2 = every container; only the
+//     resources cgreconcile passes there (memory.min/low on every level, memory.high on containers);
+//   * cpu ids come from a per-case table (1-64 cpus; dense, offset, with holes, two far blocks);
+//     cfs quotas from 1000 us to 2^44, memory from 0 to 2^62 bytes; memory.* values are whole pages,
+//     but a caller may pass an unaligned byte count (cgreconcile: request*percent/100) which the
+//     kernel rounds down - whether re-writing such a value is a "rewrite of an unchanged file" is not
+//     decided by the statement and only counted; a v2 cpuset.cpus may start empty (the cgroup
+//     inherits): it is valid under any parent and children are checked against the nearest ancestor
+//     that has cpus; ResourceForceUpdateSeconds is either far in the future or 0 (always update);
 //   * the ResourceCache only ever holds values that koordlet itself wrote through the executor
 //     (cold, pre-warmed through the real UpdateBatch/LeveledUpdateBatch, or warm from the previous
 //     rewrite of the case); after a simulated crash the cache is cold (new process);
@@ -51,6 +63,7 @@ import (
 
 	"k8s.io/klog/v2"
 
+	"github.com/koordinator-sh/koordinator/pkg/koordlet/audit"
 	sysutil "github.com/koordinator-sh/koordinator/pkg/koordlet/util/system"
 	"github.com/koordinator-sh/koordinator/pkg/util/cache"
 	kit "github.com/koordinator-sh/koordinator/pkg/verifkit"
@@ -113,32 +126,86 @@ func c12Join(res int, a, b uint64) uint64 {
 	return b
 }
 
-func c12Ranges(mask uint64) string {
-	var parts []string
-	for i := 0; i < 64; i++ {
-		if mask&(1<<uint(i)) == 0 {
-			continue
+// c12CPUIDs is the cpu id table of the running case: bit i of a cpuset mask stands for the logical
+// cpu c12CPUIDs[i] (ascending). Ids need not start at 0 nor be contiguous. Cases run one at a time.
+var c12CPUIDs []int
+
+func c12GenCPUIDs(r *kit.Rand) []int {
+	n := kit.Pick(r, []int{1, 2, 2, 4, 4, 8, 8, 16, 16, 32, 64})
+	ids := make([]int, n)
+	switch r.Weighted(55, 15, 18, 12) {
+	case 0: // 0..n-1
+		for i := range ids {
+			ids[i] = i
 		}
+	case 1: // offset
+		off := kit.Pick(r, []int{1, 7, 64, 200, 960})
+		for i := range ids {
+			ids[i] = off + i
+		}
+	case 2: // holes
+		id := r.Intn(3)
+		for i := range ids {
+			ids[i] = id
+			id++
+			if r.Pct(35) {
+				id += r.Range(1, 5)
+			}
+		}
+	default: // two blocks (e.g. hyper-thread siblings far apart)
+		gap := kit.Pick(r, []int{64, 128, 512})
+		for i := range ids {
+			if i < (n+1)/2 {
+				ids[i] = i
+			} else {
+				ids[i] = gap + i - (n+1)/2
+			}
+		}
+	}
+	return ids
+}
+
+func c12IDsOf(mask uint64) []int {
+	var out []int
+	for i, id := range c12CPUIDs {
+		if mask&(1<<uint(i)) != 0 {
+			out = append(out, id)
+		}
+	}
+	return out
+}
+
+// c12Ranges is the canonical (kernel) cpu list of the mask.
+func c12Ranges(mask uint64) string {
+	ids := c12IDsOf(mask)
+	var parts []string
+	for i := 0; i < len(ids); i++ {
 		j := i
-		for j+1 < 64 && mask&(1<<uint(j+1)) != 0 {
+		for j+1 < len(ids) && ids[j+1] == ids[j]+1 {
 			j++
 		}
 		if j == i {
-			parts = append(parts, strconv.Itoa(i))
+			parts = append(parts, strconv.Itoa(ids[i]))
 		} else {
-			parts = append(parts, fmt.Sprintf("%d-%d", i, j))
+			parts = append(parts, fmt.Sprintf("%d-%d", ids[i], ids[j]))
 		}
 		i = j
 	}
 	return strings.Join(parts, ",")
 }
 
-func c12List(mask uint64) string {
-	var parts []string
-	for i := 0; i < 64; i++ {
-		if mask&(1<<uint(i)) != 0 {
-			parts = append(parts, strconv.Itoa(i))
-		}
+// c12List is a plain comma list; style 1 = unordered, style 2 = unordered with a duplicate.
+func c12List(r *kit.Rand, mask uint64, style int) string {
+	ids := c12IDsOf(mask)
+	if style >= 1 {
+		kit.Shuffle(r, ids)
+	}
+	if style == 2 && len(ids) > 0 {
+		ids = append(ids, ids[0])
+	}
+	parts := make([]string, len(ids))
+	for i, id := range ids {
+		parts[i] = strconv.Itoa(id)
 	}
 	return strings.Join(parts, ",")
 }
@@ -178,11 +245,16 @@ func c12Display(res int, v uint64, v2 bool) string {
 }
 
 // c12Caller is the string a koordlet caller passes for the value.
-func c12Caller(r *kit.Rand, res int, v uint64) string {
+func c12Caller(r *kit.Rand, res int, v uint64, slack uint64) string {
 	switch res {
 	case c12CPUSet:
-		if r.Pct(25) {
-			return c12List(v)
+		switch r.Weighted(70, 18, 8, 4) {
+		case 1:
+			return c12List(r, v, 0)
+		case 2:
+			return c12List(r, v, 1)
+		case 3:
+			return c12List(r, v, 2)
 		}
 		return c12Ranges(v)
 	case c12CFS:
@@ -197,7 +269,7 @@ func c12Caller(r *kit.Rand, res int, v uint64) string {
 			}
 			return "9223372036854775807"
 		}
-		return strconv.FormatUint(v, 10)
+		return strconv.FormatUint(v+slack, 10)
 	}
 }
 
@@ -209,6 +281,10 @@ func c12Parse(res int, raw string) (uint64, bool) {
 		if s == "" {
 			return 0, false
 		}
+		bit := map[int]int{}
+		for i, id := range c12CPUIDs {
+			bit[id] = i
+		}
 		var m uint64
 		for _, part := range strings.Split(s, ",") {
 			lohi := strings.Split(part, "-")
@@ -216,18 +292,22 @@ func c12Parse(res int, raw string) (uint64, bool) {
 				return 0, false
 			}
 			lo, err := strconv.Atoi(lohi[0])
-			if err != nil || lo < 0 || lo > 63 {
+			if err != nil || lo < 0 || lo > 8192 {
 				return 0, false
 			}
 			hi := lo
 			if len(lohi) == 2 {
 				hi, err = strconv.Atoi(lohi[1])
-				if err != nil || hi < lo || hi > 63 {
+				if err != nil || hi < lo || hi > 8192 {
 					return 0, false
 				}
 			}
 			for i := lo; i <= hi; i++ {
-				m |= 1 << uint(i)
+				b, ok := bit[i]
+				if !ok {
+					return 0, false // a cpu the node does not have
+				}
+				m |= 1 << uint(b)
 			}
 		}
 		return m, true
@@ -252,7 +332,10 @@ func c12Parse(res int, raw string) (uint64, bool) {
 		if err != nil || n < 0 {
 			return 0, false
 		}
-		return uint64(n), true
+		if uint64(n) == c12Inf {
+			return c12Inf, true
+		}
+		return uint64(n) - uint64(n)%4096, true // what the kernel keeps: whole pages
 	}
 }
 
@@ -295,33 +378,37 @@ func c12Subset(r *kit.Rand, mask uint64) uint64 {
 	return m
 }
 
+// Limits: cfs quota is any number >= 1000 us (the kernel's minimum, unit 1); the semantic value of
+// memory.* is a whole number of pages (the kernel stores pages and shows the rounded-down bytes) - a
+// caller may still pass an unaligned byte count, see c12File.slack.
 func c12Unit(res int) uint64 {
 	if res == c12CFS {
-		return 1000
+		return 1
 	}
 	return 4096
 }
 
 func c12LoUnits(res int) uint64 {
 	if res == c12CFS {
-		return 1 // CFSQuotaMinValue
+		return 1000 // CFSQuotaMinValue
 	}
 	return 0
 }
 
 func c12HiUnits(res int) uint64 {
 	if res == c12CFS {
-		return 6400
+		return 1 << 44 // far above any real quota, still an int64 in ns
 	}
-	return 1 << 28 // 1 TiB
+	return 1 << 50 // pages = 2^62 bytes
 }
 
-// c12PickUnits picks a number of units in [lo,hi], biased to the ends.
-func c12PickUnits(r *kit.Rand, lo, hi uint64) uint64 {
+// c12PickUnits picks a number of units in [lo,hi]: biased to the ends and to the usual magnitudes
+// (a few cpus, MiB..TiB), cfs mostly multiples of 1000 us, with a modest share of 64-bit-scale values.
+func c12PickUnits(r *kit.Rand, res int, lo, hi uint64) uint64 {
 	if hi <= lo {
 		return lo
 	}
-	switch r.Intn(8) {
+	switch r.Intn(10) {
 	case 0:
 		return lo
 	case 1:
@@ -330,14 +417,27 @@ func c12PickUnits(r *kit.Rand, lo, hi uint64) uint64 {
 		return hi - 1
 	case 3:
 		return lo + 1
-	case 4: // small
-		span := hi - lo
-		if span > 64 {
-			span = 64
-		}
-		return lo + uint64(r.Int63n(int64(span)+1))
 	}
-	return lo + uint64(r.Int63n(int64(hi-lo)+1))
+	var caps []uint64
+	if res == c12CFS {
+		caps = []uint64{lo + 64, 400000, 6400000, 6400000, 1 << 32, hi}
+	} else {
+		caps = []uint64{lo + 64, 1 << 8, 1 << 18, 1 << 22, 1 << 28, 1 << 28, (1 << 41) + 1, hi}
+	}
+	m := kit.Pick(r, caps)
+	if m > hi {
+		m = hi
+	}
+	if m <= lo {
+		return lo
+	}
+	v := lo + uint64(r.Int63n(int64(m-lo)+1))
+	if res == c12CFS && r.Pct(70) {
+		if a := v - v%1000; a >= lo {
+			v = a
+		}
+	}
+	return v
 }
 
 // c12GenStartSet / c12GenStartLim: a value <= bound (bound = universe / c12Inf for the root).
@@ -353,12 +453,12 @@ func c12GenStart(r *kit.Rand, res int, bound uint64, root bool) uint64 {
 		if r.Pct(35) {
 			return c12Inf
 		}
-		return c12PickUnits(r, c12LoUnits(res), c12HiUnits(res)) * unit
+		return c12PickUnits(r, res, c12LoUnits(res), c12HiUnits(res)) * unit
 	}
 	if r.Pct(35) {
 		return bound
 	}
-	return c12PickUnits(r, c12LoUnits(res), bound/unit) * unit
+	return c12PickUnits(r, res, c12LoUnits(res), bound/unit) * unit
 }
 
 // c12GenTarget produces a value <= ub of the wanted kind relative to start (before the lower bound
@@ -408,7 +508,7 @@ func c12GenTarget(r *kit.Rand, res, kind int, start, ub, universe uint64) uint64
 			}
 			return c12Subset(r, ub)
 		default: // same
-			if start&^ub == 0 {
+			if start != 0 && start&^ub == 0 {
 				return start
 			}
 			return c12Subset(r, ub)
@@ -425,13 +525,13 @@ func c12GenTarget(r *kit.Rand, res, kind int, start, ub, universe uint64) uint64
 			if ub == c12Inf && r.Pct(25) {
 				return c12Inf
 			}
-			return c12PickUnits(r, lo, hi) * unit
+			return c12PickUnits(r, res, lo, hi) * unit
 		}
 		h := start / unit
 		if hi < h {
 			h = hi
 		}
-		return c12PickUnits(r, lo, h) * unit
+		return c12PickUnits(r, res, lo, h) * unit
 	case c12KGrow:
 		if start == c12Inf {
 			return ub // c12Inf when the parent allows it, else the parent's value
@@ -443,17 +543,17 @@ func c12GenTarget(r *kit.Rand, res, kind int, start, ub, universe uint64) uint64
 		if l > hi {
 			l = hi
 		}
-		return c12PickUnits(r, l, hi) * unit
+		return c12PickUnits(r, res, l, hi) * unit
 	case c12KShift:
 		if ub == c12Inf && r.Pct(25) {
 			return c12Inf
 		}
-		return c12PickUnits(r, lo, hi) * unit
+		return c12PickUnits(r, res, lo, hi) * unit
 	case c12KUnlimited:
 		if start != c12Inf {
 			return ub
 		}
-		return c12PickUnits(r, lo, hi) * unit
+		return c12PickUnits(r, res, lo, hi) * unit
 	default:
 		if start <= ub {
 			return start
@@ -475,6 +575,10 @@ type c12File struct {
 	frozen  bool
 	inBatch bool
 	writes  int
+	// slack: the caller passes target+slack bytes for memory.* (cgreconcile passes request*percent/100,
+	// not a page multiple); the kernel keeps the whole pages = target. One slack per resource and
+	// rewrite, so that the byte counts passed are hierarchy-valid too.
+	slack uint64
 	// mergeSelf: MergeUpdate wrote a merged value different from the target but returned the
 	// updater that carries the target value (which the executor then records as last written)
 	mergeSelf bool
@@ -490,6 +594,13 @@ type c12World struct {
 	dirs     []string
 	kids     [][]int
 	maxDepth int
+	level    []int // batch level of each node (= depth unless qosShape)
+	nLevels  int
+	// qosShape: the batch is built like cgreconcile's: level 0 holds the kubepods root (the Guaranteed
+	// QoS dir) followed by its child QoS dirs, level 1 every pod, level 2 every container
+	qosShape bool
+	nl       string // what the kernel appends when a file is read ("\n" on a real kernel)
+	force0   bool   // ResourceForceUpdateSeconds = 0: every updater always needs an update
 	res      []int
 	files    [][]*c12File // [node][index into res]
 	calls    int
@@ -549,7 +660,11 @@ func (w *c12World) setFile(f *c12File, content string) {
 // redisplay puts every file into the kernel's display format of its current value.
 func (w *c12World) redisplay() {
 	for _, f := range w.all() {
-		w.setFile(f, c12Display(f.res, f.cur, w.v2))
+		d := c12Display(f.res, f.cur, w.v2)
+		if d != "" {
+			d += w.nl
+		}
+		w.setFile(f, d)
 	}
 }
 
@@ -591,10 +706,20 @@ func (w *c12World) checkValid(where string) {
 			if p < 0 {
 				continue
 			}
+			if res == c12CPUSet {
+				// an empty v2 cpuset.cpus passes on what the next ancestor with cpus allows
+				for w.files[p][ri].cur == 0 && w.parent[p] >= 0 {
+					p = w.parent[p]
+				}
+			}
 			ch, pa := w.files[n][ri], w.files[p][ri]
 			if !c12Leq(res, ch.cur, pa.cur) {
 				sig := "C12/" + w.unit + "/mid-rewrite-invalid/" + c12ResNames[res]
-				if res == c12CPUSet && ch.mergeSelf && ch.cur == ch.start|ch.target && ch.cur != ch.target && ch.target&^pa.cur == 0 {
+				if w.level[n] == w.level[p] {
+					// cgreconcile's shape: parent (kubepods) and child (burstable/besteffort) are handed
+					// over in one level, parent first
+					sig += "/parent-and-child-in-one-level"
+				} else if res == c12CPUSet && ch.mergeSelf && ch.cur == ch.start|ch.target && ch.cur != ch.target && ch.target&^pa.cur == 0 {
 					// the child still holds the union written by its MergeUpdate, which returned the
 					// updater carrying the target value, while the parent is already being narrowed
 					sig += "/child-left-at-union-of-old-and-new"
@@ -633,7 +758,11 @@ func (w *c12World) snapshot(call string, f *c12File, err error) {
 		w.trace = append(w.trace, w.flat())
 	}
 	for _, wf := range written {
-		if wf.start == wf.target {
+		if wf.start == wf.target && wf.slack != 0 {
+			// the caller passed more bytes than the kernel shows (page rounding): whether re-writing
+			// them counts as "unchanged" is not decided by the statement - counted, not asserted
+			w.c.Count("executor_unaligned_same_pages_rewritten_not_asserted", 1)
+		} else if wf.start == wf.target {
 			// The hierarchy and the values are still right, so the case goes on (Report, not Fail):
 			// the later oracles of this case are not masked by this finding.
 			w.c.Count("executor_unchanged_files_rewritten", 1)
@@ -677,10 +806,14 @@ func (u *c12Updater) Clone() ResourceUpdater {
 	return &c12Updater{ResourceUpdater: u.ResourceUpdater.Clone(), w: u.w, f: u.f}
 }
 
-func c12NewExecutor() (*ResourceUpdateExecutorImpl, chan struct{}) {
+func c12NewExecutor(force0 bool) (*ResourceUpdateExecutorImpl, chan struct{}) {
+	force := 1 << 30
+	if force0 {
+		force = 0
+	}
 	e := &ResourceUpdateExecutorImpl{
 		ResourceCache: cache.NewCache(100*365*24*time.Hour, 24*time.Hour),
-		Config:        &Config{ResourceForceUpdateSeconds: 1 << 30},
+		Config:        &Config{ResourceForceUpdateSeconds: force},
 	}
 	stop := make(chan struct{})
 	e.Run(stop)
@@ -696,14 +829,24 @@ func c12BuildTree(r *kit.Rand, w *c12World, rootDir string) {
 	w.dirs = []string{rootDir}
 	w.kids = [][]int{nil}
 	frontier := []int{0}
+	wide := -1
+	if r.Pct(12) {
+		wide = r.Range(1, w.maxDepth) // one node of this depth has many children (a node has many pods)
+	}
 	for d := 1; d <= w.maxDepth; d++ {
 		var next []int
-		for _, p := range frontier {
+		for pi, p := range frontier {
 			nk := r.Range(1, 3)
 			if d == 3 && r.Pct(50) {
 				nk = 1 // keep the widest trees rare
 			}
-			for k := 0; k < nk; k++ {
+			if wide > 0 {
+				nk = r.Range(1, 2)
+				if d == wide && pi == 0 {
+					nk = r.Range(4, 8)
+				}
+			}
+			for k := 0; k < nk && len(w.dirs) < 45; k++ {
 				id := len(w.dirs)
 				w.parent = append(w.parent, p)
 				w.depth = append(w.depth, d)
@@ -714,6 +857,29 @@ func c12BuildTree(r *kit.Rand, w *c12World, rootDir string) {
 			}
 		}
 		frontier = next
+	}
+	// batch levels
+	w.level = append([]int(nil), w.depth...)
+	w.qosShape = w.maxDepth >= 2 && r.Pct(30)
+	if w.qosShape {
+		nq := r.Range(1, 2)
+		for i, k := range w.kids[0] {
+			if i < nq {
+				w.level[k] = 0 // burstable / besteffort: same level as their parent kubepods
+			} else {
+				w.level[k] = 1 // a guaranteed pod directly under kubepods
+			}
+		}
+		for n := 1; n < len(w.dirs); n++ { // parents have smaller ids than their children
+			if p := w.parent[n]; p > 0 {
+				w.level[n] = w.level[p] + 1
+			}
+		}
+	}
+	for _, l := range w.level {
+		if l+1 > w.nLevels {
+			w.nLevels = l + 1
+		}
 	}
 }
 
@@ -749,7 +915,23 @@ func (w *c12World) genTargets(r *kit.Rand, ri, kind int) {
 		if kind == c12KSame {
 			f.frozen = f.frozen || r.Pct(50)
 		}
+		if res == c12CPUSet && f.start == 0 {
+			f.frozen = false // an empty (inheriting) v2 cpuset is always given a real target
+		}
 	}
+	slack := uint64(0)
+	if res >= c12MemMin && r.Pct(25) {
+		slack = uint64(r.Range(1, 4095))
+		w.c.Count("executor_rewrites_with_unaligned_memory_bytes", 1)
+	}
+	if w.qosShape && res == c12MemHigh {
+		for i := 0; i < n; i++ {
+			if w.level[i] < 2 {
+				w.files[i][ri].frozen = true // cgreconcile writes memory.high for containers only
+			}
+		}
+	}
+	levelOut := mode == 2 && r.Pct(50) // the whole frozen level is missing from the batch (an empty level)
 	// lower bound: join of the start values of frozen descendants
 	lb := make([]uint64, n)
 	order := w.topo()
@@ -767,7 +949,8 @@ func (w *c12World) genTargets(r *kit.Rand, ri, kind int) {
 		f := w.files[i][ri]
 		if f.frozen {
 			f.target = f.start
-			f.inBatch = r.Pct(50)
+			f.slack = 0
+			f.inBatch = r.Pct(50) && !levelOut && !(w.qosShape && res == c12MemHigh)
 			continue
 		}
 		ub := c12Inf
@@ -779,6 +962,10 @@ func (w *c12World) genTargets(r *kit.Rand, ri, kind int) {
 		}
 		f.target = c12Join(res, c12GenTarget(r, res, kind, f.start, ub, w.universe), lb[i])
 		f.inBatch = true
+		f.slack = 0
+		if f.target != c12Inf {
+			f.slack = slack
+		}
 	}
 	// the premise, re-checked
 	for i := 0; i < n; i++ {
@@ -792,7 +979,15 @@ func (w *c12World) genTargets(r *kit.Rand, ri, kind int) {
 }
 
 func (w *c12World) newUpdater(r *kit.Rand, f *c12File, v uint64, wrap bool) ResourceUpdater {
-	u, err := DefaultCgroupUpdaterFactory.New(c12ResTypes[f.res], w.dirs[f.node], c12Caller(r, f.res, v), nil)
+	var eh *audit.EventHelper
+	if r.Pct(30) {
+		eh = &audit.EventHelper{}
+	}
+	slack := uint64(0)
+	if wrap {
+		slack = f.slack
+	}
+	u, err := DefaultCgroupUpdaterFactory.New(c12ResTypes[f.res], w.dirs[f.node], c12Caller(r, f.res, v, slack), eh)
 	if err != nil {
 		w.c.Harness("factory: %v", err)
 	}
@@ -805,20 +1000,43 @@ func (w *c12World) newUpdater(r *kit.Rand, f *c12File, v uint64, wrap bool) Reso
 	return &c12Updater{ResourceUpdater: u, w: w, f: f}
 }
 
-// levels builds the [][]ResourceUpdater a caller passes: level = depth, any order within a level.
+// levels builds the [][]ResourceUpdater a caller passes: level = depth, any order within a level
+// (qosShape: level 0 = kubepods followed by its child QoS dirs, in that order).
 func (w *c12World) levels(r *kit.Rand, wrap bool, pick func(f *c12File) (uint64, bool)) [][]ResourceUpdater {
-	out := make([][]ResourceUpdater, w.maxDepth+1)
-	for n := range w.dirs {
+	out := make([][]ResourceUpdater, w.nLevels)
+	for n := range w.dirs { // parents have smaller ids than their children
 		for _, f := range w.files[n] {
 			v, ok := pick(f)
 			if !ok {
 				continue
 			}
-			out[w.depth[n]] = append(out[w.depth[n]], w.newUpdater(r, f, v, wrap))
+			out[w.level[n]] = append(out[w.level[n]], w.newUpdater(r, f, v, wrap))
 		}
 	}
-	for _, l := range out {
+	for i, l := range out {
+		if w.qosShape && i == 0 {
+			continue // cgreconcile's order: kubepods (Guaranteed) first, then Burstable, BestEffort
+		}
 		kit.Shuffle(r, l)
+	}
+	if wrap && r.Pct(15) {
+		// a pod/container that vanished between listing and writing: its cgroup dir is gone, the
+		// updaters are still in the batch (the executor ignores "cgroup dir not exist")
+		p := r.Intn(len(w.dirs))
+		lvl := w.level[p] + 1
+		if lvl < len(out) {
+			for _, f := range w.files[p] {
+				u, err := DefaultCgroupUpdaterFactory.New(c12ResTypes[f.res], filepath.Join(w.dirs[p], "gone"), c12Caller(r, f.res, f.target, 0), nil)
+				if err != nil {
+					w.c.Harness("factory: %v", err)
+				}
+				out[lvl] = append(out[lvl], u)
+				w.c.Count("executor_updaters_for_vanished_cgroups", 1)
+			}
+			if !w.qosShape || lvl > 0 {
+				kit.Shuffle(r, out[lvl])
+			}
+		}
 	}
 	return out
 }
@@ -918,7 +1136,7 @@ func TestVerifC12Executor(t *testing.T) {
 	helper := sysutil.NewFileTestUtil(t)
 	defer helper.Cleanup()
 	kit.Run(t, kit.Config{Property: "C12", Unit: "executor", Quick: 500, Thorough: 20000,
-		Rule: "one case = one cgroup tree (depth 1-3, 1-3 children per node, 1-5 of the resources cpuset/cfs quota/memory.min/low/high, cgroup v1 or v2) with a hierarchy-valid start assignment and 1-3 successive rewrites through the real LeveledUpdateBatch to generated hierarchy-valid targets (per resource shrink/grow/shift/unlimited/mixed/same; frozen or left-out files; cache cold, pre-warmed or warm from the previous rewrite; optionally a restart from a crash point of the previous rewrite); a snapshot after every single MergeUpdate()/update() call; distinct = (cgroup version, depth, resource, kind, cache state, #writes); non-trivial = a parent and one of its children both change for the same resource"},
+		Rule: "one case = one cgroup tree (depth 1-3, 1-3 children per node and occasionally one node with 4-8, 1-5 of the resources cpuset/cfs quota/memory.min/low/high, cgroup v1 or v2, 1-64 cpus with dense/offset/sparse ids, limits from the kernel minimum to 2^62 aligned or not, batch levels = depth or cgreconcile's shape with kubepods and its QoS children in level 0) with a hierarchy-valid start assignment and 1-6 successive rewrites through the real LeveledUpdateBatch to generated hierarchy-valid targets (per resource shrink/grow/shift/unlimited/mixed/same; frozen or left-out files; cache cold, pre-warmed or warm from the previous rewrite; optionally a restart from a crash point of the previous rewrite); a snapshot after every single MergeUpdate()/update() call; distinct = (cgroup version, depth, resource, kind, cache state, #writes); non-trivial = a parent and one of its children both change for the same resource"},
 		func(c *kit.Case) {
 			r := c.R
 			w := &c12World{c: c, unit: "executor", v2: r.Bool()}
@@ -930,8 +1148,18 @@ func TestVerifC12Executor(t *testing.T) {
 					_ = os.RemoveAll(filepath.Join(helper.TempDir, sub, "c12x"))
 				}
 			}()
-			ncpu := kit.Pick(r, []int{2, 4, 8, 16})
-			w.universe = (uint64(1) << uint(ncpu)) - 1
+			c12CPUIDs = c12GenCPUIDs(r)
+			ncpu := len(c12CPUIDs)
+			w.universe = ^uint64(0)
+			if ncpu < 64 {
+				w.universe = (uint64(1) << uint(ncpu)) - 1
+			}
+			w.nl = "\n"
+			if r.Pct(25) {
+				w.nl = "" // the package's own tests prepare files without the trailing newline
+			}
+			w.force0 = r.Pct(12)
+			emptyV2 := w.v2 && r.Pct(30) // some v2 cgroups have an empty cpuset.cpus (they inherit)
 			c12BuildTree(r, w, filepath.Join(base, "kubepods"))
 			// resources of this case
 			switch r.Weighted(40, 30, 30) {
@@ -943,6 +1171,10 @@ func TestVerifC12Executor(t *testing.T) {
 				sort.Ints(w.res)
 			default:
 				w.res = []int{c12CPUSet, c12CFS, c12MemMin, c12MemLow, c12MemHigh}
+			}
+			if w.qosShape {
+				// cgreconcile: memory.min / memory.low on every level, memory.high on containers
+				w.res = [][]int{{c12MemMin}, {c12MemLow}, {c12MemMin, c12MemLow}, {c12MemMin, c12MemLow, c12MemHigh}}[r.Intn(4)]
 			}
 			// files + start assignment (top-down, valid)
 			w.files = make([][]*c12File, len(w.dirs))
@@ -961,19 +1193,40 @@ func TestVerifC12Executor(t *testing.T) {
 						bound = w.files[p][ri].cur
 					}
 					f.cur = c12GenStart(r, res, bound, w.parent[n] < 0)
+					if res == c12CPUSet && w.parent[n] >= 0 && (bound == 0 || emptyV2 && r.Pct(35)) {
+						f.cur = 0 // empty, and so is everything below it
+						c.Count("executor_v2_empty_cpusets_at_start", 1)
+					}
 					w.files[n] = append(w.files[n], f)
 				}
 			}
 			w.redisplay()
-			c.Op("tree cgroup=%s cpus=%d dirs=%v resources=%v", w.ver(), ncpu, w.dirs, w.res)
+			c.Op("tree cgroup=%s cpu-ids=%v dirs=%v levels=%v qos-shape=%v resources=%v force-update-0=%v newline=%v", w.ver(), c12CPUIDs, w.dirs, w.level, w.qosShape, w.res, w.force0, w.nl != "")
+			if w.qosShape {
+				c.Count("executor_cases_qos_shape", 1)
+			}
+			if w.force0 {
+				c.Count("executor_cases_force_update_0", 1)
+			}
+			if len(w.dirs) > 20 {
+				c.Count("executor_cases_more_than_20_cgroups", 1)
+			}
+			if c12CPUIDs[len(c12CPUIDs)-1] != len(c12CPUIDs)-1 {
+				c.Count("executor_cases_sparse_or_offset_cpu_ids", 1)
+			}
 
-			e, stop := c12NewExecutor()
+			e, stop := c12NewExecutor(w.force0)
 			defer func() { close(stop) }()
 			// cache state before the first rewrite
 			cacheState := []string{"cold", "warm-all", "warm-some"}[r.Weighted(40, 35, 25)]
 			if cacheState != "cold" {
 				some := cacheState == "warm-some"
-				pre := w.levels(r, false, func(f *c12File) (uint64, bool) { return f.cur, !some || r.Bool() })
+				pre := w.levels(r, false, func(f *c12File) (uint64, bool) {
+					if f.res == c12CPUSet && f.cur == 0 {
+						return 0, false // koordlet never wrote an empty cpuset
+					}
+					return f.cur, !some || r.Bool()
+				})
 				if r.Bool() {
 					e.LeveledUpdateBatch(pre)
 				} else {
@@ -984,6 +1237,9 @@ func TestVerifC12Executor(t *testing.T) {
 				// koordlet wrote the values the files already had; show them as the kernel does
 				for _, f := range w.all() {
 					raw, _ := os.ReadFile(f.path)
+					if f.res == c12CPUSet && f.cur == 0 && len(raw) == 0 {
+						continue
+					}
 					if v, ok := c12Parse(f.res, string(raw)); !ok || v != f.cur {
 						c.Harness("pre-warming changed %s to %q", f.path, string(raw))
 					}
@@ -991,6 +1247,9 @@ func TestVerifC12Executor(t *testing.T) {
 				w.redisplay()
 			}
 			nrew := r.Range(1, 3)
+			if r.Pct(10) {
+				nrew = r.Range(4, 6)
+			}
 			for i := 0; i < nrew; i++ {
 				resume := i > 0 && len(w.trace) > 1 && r.Pct(30)
 				if resume {
@@ -1003,12 +1262,12 @@ func TestVerifC12Executor(t *testing.T) {
 					}
 					w.redisplay()
 					close(stop)
-					e, stop = c12NewExecutor()
+					e, stop = c12NewExecutor(w.force0)
 					cacheState = "cold-after-crash"
 					c.Count("executor_rewrites_resumed_from_crash_point", 1)
 					for _, f := range w.all() {
 						f.start = f.cur
-						c.Seen(w.v2, w.maxDepth, c12ResNames[f.res], "resume", w.classify(f))
+						c.Seen(w.v2, w.maxDepth, w.qosShape, c12ResNames[f.res], "resume", w.classify(f))
 					}
 					w.rewrite(r, e, fmt.Sprintf("rewrite %d (restart from crash point %d of the previous one, cold cache)", i, j))
 				} else {
@@ -1030,7 +1289,7 @@ func TestVerifC12Executor(t *testing.T) {
 						if wr > 6 {
 							wr = 6
 						}
-						c.Seen(w.v2, w.maxDepth, c12ResNames[res], c12KindNames[kinds[ri]], cacheState, wr)
+						c.Seen(w.v2, w.maxDepth, w.qosShape, w.force0, c12ResNames[res], c12KindNames[kinds[ri]], cacheState, wr)
 					}
 				}
 				c.Count("executor_cache_"+cacheState, 1)
